@@ -361,8 +361,13 @@ func (x *router) dispatchToRoutees(ctx *ReceiveContext, msg any, routees []*PID)
 func (x *router) routeByStrategy(ctx *ReceiveContext, msg any, routees []*PID) {
 	switch x.routingStrategy {
 	case RoundRobinRouting:
-		n := atomic.AddUint32(&x.roundRobinNext, 1)
-		routee := routees[(int(n)-1)%len(routees)]
+		// keep the cursor reduced modulo the pool size: a free-running uint32
+		// counter yields index -1 when it wraps and breaks the cyclic order
+		// whenever the pool size does not divide 2^32.
+		size := uint32(len(routees))
+		idx := atomic.LoadUint32(&x.roundRobinNext) % size
+		atomic.StoreUint32(&x.roundRobinNext, (idx+1)%size)
+		routee := routees[idx]
 		ctx.Tell(routee, msg)
 	case RandomRouting:
 		routee := routees[rand.IntN(len(routees))] //nolint:gosec
